@@ -20,7 +20,6 @@ import (
 	"errors"
 	"fmt"
 	"io"
-	"maps"
 	"math"
 	"net/http"
 	"net/textproto"
@@ -381,7 +380,11 @@ func grpcAddResponseMeta(contentTypePrefix string, meta responseMeta, headers ht
 }
 
 func grpcWriteEndToTrailers(respEnd *responseEnd, trailers http.Header) {
-	maps.Copy(trailers, respEnd.trailers)
+	for key, vals := range respEnd.trailers {
+		// The target may be the response headers (trailers-only response), which
+		// can already have values of their own for the same key.
+		trailers[key] = append(trailers[key], vals...)
+	}
 	if respEnd.err == nil {
 		trailers.Set("Grpc-Status", "0")
 		trailers.Set("Grpc-Message", "")
